@@ -1,0 +1,76 @@
+//go:build verif
+
+package decorator
+
+import (
+	"go/ast"
+	"go/token"
+
+	"github.com/dave/dst"
+)
+
+// Hooks for the verification harness (build tag verif): they expose the internal state of the
+// decorator after fragment() and link() so that a model of the attachment algorithm can be
+// compared with the implementation. They add no behaviour.
+
+// VerifFragment is one element of the sorted fragment list.
+type VerifFragment struct {
+	Kind        string // "dec", "tok", "str", "bad", "com", "nl"
+	Node        ast.Node
+	Name        string // decoration point name
+	Text        string // comment text
+	Empty       bool   // empty-line newline
+	Pos         token.Pos
+	Indent      int // comment: indent
+	StartIndent int // decoration: startIndents[Node]
+	EndIndent   int // decoration: endIndents[Node]
+	AttachedTo  int // comment / newline: index of the decoration fragment it was attached to in pass 1, or -1
+}
+
+// VerifLink is the decorator's attachment state for one file.
+type VerifLink struct {
+	Fragments   []VerifFragment
+	Before      map[ast.Node]dst.SpaceType
+	After       map[ast.Node]dst.SpaceType
+	Decorations map[ast.Node]map[string][]string
+}
+
+// VerifFragmentAndLink runs fragment() and link() on f and returns what they computed.
+func VerifFragmentAndLink(fset *token.FileSet, f *ast.File) VerifLink {
+	d := NewDecorator(fset)
+	fd := d.newFileDecorator()
+	fd.file = f
+	fd.fragment(f)
+	fd.link()
+	index := map[*decorationFragment]int{}
+	for i, fr := range fd.fragments {
+		if df, ok := fr.(*decorationFragment); ok {
+			index[df] = i
+		}
+	}
+	at := func(df *decorationFragment) int {
+		if df == nil {
+			return -1
+		}
+		return index[df]
+	}
+	out := VerifLink{Before: fd.before, After: fd.after, Decorations: fd.decorations}
+	for _, fr := range fd.fragments {
+		switch fr := fr.(type) {
+		case *decorationFragment:
+			out.Fragments = append(out.Fragments, VerifFragment{Kind: "dec", Node: fr.Node, Name: fr.Name, Pos: fr.Pos,
+				StartIndent: fd.startIndents[fr.Node], EndIndent: fd.endIndents[fr.Node], AttachedTo: -1})
+		case *tokenFragment:
+			out.Fragments = append(out.Fragments, VerifFragment{Kind: "tok", Node: fr.Node, Pos: fr.Pos, AttachedTo: -1})
+		case *stringFragment:
+			out.Fragments = append(out.Fragments, VerifFragment{Kind: "str", Node: fr.Node, Text: fr.String, Pos: fr.Pos, AttachedTo: -1})
+		case *badFragment:
+			out.Fragments = append(out.Fragments, VerifFragment{Kind: "bad", Node: fr.Node, Pos: fr.Pos, AttachedTo: -1})
+		case *commentFragment:
+			out.Fragments = append(out.Fragments, VerifFragment{Kind: "com", Text: fr.Text, Pos: fr.Pos, Indent: fr.Indent, AttachedTo: at(fr.Attached)})
+		case *newlineFragment:
+			out.Fragments = append(out.Fragments, VerifFragment{Kind: "nl", Empty: fr.Empty, Pos: fr.Pos, AttachedTo: at(fr.Attached)})
+		}
+	}
+	return out
+}
